@@ -195,15 +195,22 @@ def oracle(ctx, widen=1):
         for step in range(ctx.rng.randint(1, 3)):
             if bad:
                 break
-            change = ctx.rng.choice(CHANGES)
-            try:
-                with quiet():
-                    change_state(ctx.rng, ub, change)
-            except Exception as e:  # noqa
-                history.append(f"{change}!{type(e).__name__}")
-                continue            # a rejected change leaves the calculator as it was (C17); the clauses still apply
-            history.append(change)
-            kinds2.add((change, k[0]))
+            # one change, or a burst of several changes in a row with no transform in between (a calculator that is re-oriented many times
+            # before the next question is asked must answer for the UB it has at the end)
+            burst = ctx.rng.choice([1, 1, 1, 2, 3, 4, 6, 9, 12])
+            change, applied = None, 0
+            for _b in range(burst):
+                change = ctx.rng.choice(CHANGES) if burst == 1 or ctx.rng.random() < 0.3 else ctx.rng.choice(["set_u", "set_miscut", "set_ub", "set_lattice"])
+                try:
+                    with quiet():
+                        change_state(ctx.rng, ub, change)
+                    applied += 1
+                    history.append(change)
+                    kinds2.add((change, k[0]))
+                except Exception as e:  # noqa
+                    history.append(f"{change}!{type(e).__name__}")     # a rejected change leaves the calculator as it was (C17); the clauses still apply
+            if not applied:
+                continue
             _, ref2, pol2, az2, s2, _ = gen_case(ctx.rng) if ctx.rng.random() < 0.5 else (None, ref, pol, az, s, None)
             W2 = np.linalg.norm(np.asarray(ub.UB, float) @ np.array(ref2))
             if W2 < 1e-6:
